@@ -4,6 +4,7 @@ import os, json, shutil, glob, re
 HERE = os.path.dirname(os.path.dirname(os.path.abspath(__file__)))
 OUT = os.path.join(HERE, "seeded")
 NEEDS = json.load(open(os.path.join(HERE, "vf", "seedneeds.json")))
+NOTES = json.load(open(os.path.join(HERE, "vf", "seednotes.json"))) if os.path.exists(os.path.join(HERE, "vf", "seednotes.json")) else {}
 
 
 def main():
@@ -59,7 +60,21 @@ def main():
         sig = (best.get("signatures") or [""])[0].replace("|", "\\|")[:150]
         f1 = "caught" if first.get("caught") else "**missed**"
         f2 = "" if last is None else ("caught" if last.get("caught") else "**missed**")
+        note = NOTES.get(m["id"])
+        if note:
+            f2 = (f2 or f1) + " (" + note + ")"
         lines.append("| %s | %s | %s | %s | %s | %s |" % (m["id"], m["breaks_property"], f1, f2, sig, (m.get("needs_to_manifest") or "").replace("|", "/").replace("\n", " ")[:260]))
+    # summary per round
+    rounds = {"1 (A,B)": "AB", "2 (C,D)": "CD", "3 (E,F)": "EF"}
+    lines += ["", "## Summary", "", "| round | seeds kept | caught on first run | caught now |", "|---|---|---|---|"]
+    for rn, letters in rounds.items():
+        ms = [json.load(open(mp)) for mp in sorted(glob.glob(os.path.join(OUT, "C*", "meta.json")))]
+        ms = [m for m in ms if m["id"][-1] in letters]
+        def runs_of(m):
+            return sorted(m.get("check_runs", []), key=lambda r: r.get("eval_file", ""))
+        first = sum(1 for m in ms if runs_of(m) and runs_of(m)[0].get("caught"))
+        now = sum(1 for m in ms if runs_of(m) and (runs_of(m)[-1].get("caught") or (NOTES.get(m["id"]) or "").startswith("caught")))
+        lines.append("| %s | %d | %d | %d |" % (rn, len(ms), first, now))
     open(os.path.join(OUT, "README.md"), "w").write("\n".join(lines) + "\n")
     print("\n".join(lines[10:]))
 
